@@ -27,3 +27,4 @@ def run(ctx):
     CH.publish_rules(ctx, "C17.R5.publish", "C17.R5.nonempty", "C17.R5.flag")
     CH.reader_consume(ctx, "C17.R5.consume")
     CH.queue_api(ctx, "C17.R5.fifo")
+    CH.end_stream_table(ctx, "C17.R5.eos")
